@@ -75,7 +75,10 @@ if "--in-place" in sys.argv:
 else:
     vdir = "/root/ws/seedeval/verif"
     os.makedirs(vdir, exist_ok=True)
-    sh("rsync -a --delete --exclude work --exclude replays --exclude evidence /verif/ %s/" % vdir)
+    # the COMMITTED framework (git HEAD), not the working tree: work in progress must not leak into an evaluation;
+    # the Lean build products are copied along so that nothing is rebuilt that has not changed
+    sh("rm -rf %s/checklib %s/harness %s/tools %s/known && mkdir -p %s && git -C /verif archive HEAD | tar -x -C %s" % ((vdir,) * 6))
+    sh("rsync -a /verif/lean/.lake %s/lean/" % vdir)
     env_repo = "/tmp/seedeval_%s_chk" % sid
     subprocess.run(["git", "-C", "/repo", "worktree", "remove", "--force", env_repo], stdout=subprocess.DEVNULL, stderr=subprocess.DEVNULL)
     assert sh(["git", "-C", "/repo", "worktree", "add", "-q", "--detach", env_repo, "HEAD"])[0] == 0
